@@ -54,7 +54,7 @@ Definition le_on (x y : env (R:=R)) : Prop :=
   forall n xi, In n comp -> In xi (assts n) -> x n xi <== y n xi.
 Definition eq_on (x y : env (R:=R)) : Prop :=
   forall n xi, In n comp -> In xi (assts n) -> x n xi = y n xi.
-Definition eadd (x d : env (R:=R)) : env (R:=R) := fun l i => add o (x l i) (d l i).
+Definition env_add (x d : env (R:=R)) : env (R:=R) := fun l i => add o (x l i) (d l i).
 
 (** [multi_mv(A, y)] for a Jacobian given by blocks *)
 Definition Amv (A : jmat (R:=R)) (y : env (R:=R)) : env (R:=R) :=
@@ -141,7 +141,7 @@ Qed.
 
 (** ** C02_newton_taylor: F(x) + J(x) . d <= F(x + d), with the code's J *)
 Theorem newton_taylor x d n xi : In n comp -> In xi (assts n) ->
-  add o (F x n xi) (Amv (J_val o (NJ x)) d n xi) <== F (eadd x d) n xi.
+  add o (F x n xi) (Amv (J_val o (NJ x)) d n xi) <== F (env_add x d) n xi.
 Proof.
   intros Hn Hxi. rewrite <- (J_mv_blocks (NJ x) d n xi (newton_J_labels x)).
   unfold newton_J. rewrite (Jx_is_derivative o Hr G Hwf comp _ d false n xi Hnd Hn Hxi).
@@ -149,9 +149,9 @@ Proof.
   rewrite (dstep_ext o G _ (env_k G w (comp_env inp comp x)) dd dd n xi).
   2:{ intros r ed a _ _ _. split; [|reflexivity]. unfold oenv, oapp, env_k.
       destruct (is_term G (fst ed)); reflexivity. }
-  unfold ncomp_step. apply (taylor_step o Hr Ho G w (comp_env inp comp x) (comp_env inp comp (eadd x d)) dd n xi).
+  unfold ncomp_step. apply (taylor_step o Hr Ho G w (comp_env inp comp x) (comp_env inp comp (env_add x d)) dd n xi).
   - now apply Hcomp_nt.
-  - intros l i. unfold env_k, comp_env, eadd, dd. destruct (is_term G l) eqn:Et.
+  - intros l i. unfold env_k, comp_env, env_add, dd. destruct (is_term G l) eqn:Et.
     + destruct (mem comp l) eqn:Em; [|ring]. apply mem_In in Em. rewrite (Hcomp_nt l Em) in Et. discriminate.
     + destruct (mem comp l); ring.
 Qed.
@@ -219,7 +219,7 @@ Proof.
   intros H n xi Hn Hxi. rewrite newton_step_unfold.
   apply (max_lub o sub maxr rsd HL).
   - rewrite (x_plus_dX x H n xi Hn Hxi).
-    apply (le_trans o Ho) with (F (eadd x (newton_dX x)) n xi).
+    apply (le_trans o Ho) with (F (env_add x (newton_dX x)) n xi).
     + now apply newton_taylor.
     + apply F_mono. intros m eta _ _. apply step_ge_xd.
   - rewrite (F0_is_F x H n xi Hn Hxi). apply F_mono. intros m eta _ _. apply step_ge_x.
@@ -230,8 +230,8 @@ Lemma step_upper x u : le_on x (F x) -> le_on (F u) u -> le_on x u -> le_on (NS 
 Proof.
   intros H Hu Hxu.
   set (e := fun n xi => rsd (u n xi) (x n xi)).
-  assert (Hxe : le_on (eadd x e) u).
-  { intros n xi Hn Hxi. unfold eadd, e.
+  assert (Hxe : le_on (env_add x e) u).
+  { intros n xi Hn Hxi. unfold env_add, e.
     apply (rsd_galois o sub maxr rsd HL (x n xi) (u n xi) _ (Hxu n xi Hn Hxi)). apply (le_refl o Ho). }
   assert (Hpre : forall n xi, In n comp -> In xi (assts n) ->
             add o (Amv (J_val o (NJ x)) e n xi) (sub (F0 x n xi) (x n xi)) <== e n xi).
@@ -240,7 +240,7 @@ Proof.
     replace (add o (x n xi) (add o (Amv (J_val o (NJ x)) e n xi) (sub (F0 x n xi) (x n xi))))
       with (add o (add o (x n xi) (sub (F0 x n xi) (x n xi))) (Amv (J_val o (NJ x)) e n xi)) by ring.
     rewrite (x_plus_delta x H n xi Hn Hxi).
-    apply (le_trans o Ho) with (F (eadd x e) n xi); [now apply newton_taylor|].
+    apply (le_trans o Ho) with (F (env_add x e) n xi); [now apply newton_taylor|].
     apply (le_trans o Ho) with (F u n xi); [now apply F_mono | now apply Hu]. }
   pose proof (proj2 (Hsolve _ _) e Hpre) as HdX. fold (newton_dX x) in HdX.
   intros n xi Hn Hxi. rewrite newton_step_unfold. apply (max_lub o sub maxr rsd HL).
@@ -251,9 +251,9 @@ Proof.
 Qed.
 
 (** under the invariant the second clamp is a no-op as well: x' = x + dX *)
-Lemma step_is_x_plus_dX x : le_on x (F x) -> eq_on (NS x) (eadd x (newton_dX x)).
+Lemma step_is_x_plus_dX x : le_on x (F x) -> eq_on (NS x) (env_add x (newton_dX x)).
 Proof.
-  intros H n xi Hn Hxi. rewrite newton_step_unfold. unfold eadd. apply max_eq_l.
+  intros H n xi Hn Hxi. rewrite newton_step_unfold. unfold env_add. apply max_eq_l.
   rewrite (F0_is_F x H n xi Hn Hxi), (x_plus_dX x H n xi Hn Hxi). apply le_add_r; assumption.
 Qed.
 
@@ -311,7 +311,7 @@ Proof. intros n xi. cbn [newton_iter]. apply step_ge_F. Qed.
 
 (** C02_newton_clamps_noop: on the exact sequence both [maximum_] are the identity *)
 Theorem newton_clamps_noop k :
-  eq_on (F0 (nu k)) (F (nu k)) /\ eq_on (nu (S k)) (eadd (nu k) (newton_dX (nu k))).
+  eq_on (F0 (nu k)) (F (nu k)) /\ eq_on (nu (S k)) (env_add (nu k) (newton_dX (nu k))).
 Proof.
   split; [apply F0_is_F | cbn [newton_iter]; apply step_is_x_plus_dX]; apply newton_iter_inv.
 Qed.
